@@ -3,14 +3,19 @@ package checks
 import (
 	"encoding/json"
 	"fmt"
+	"hash/fnv"
 	"math"
+	"path/filepath"
+	"regexp"
 	"strings"
 	"sync"
 
 	textwire "github.com/textwire/textwire/v2"
+	"github.com/textwire/textwire/v2/config"
 	"verif/lib/harness"
 	"verif/lib/refint"
 	"verif/lib/spec"
+	"verif/lib/tree"
 )
 
 // calib learns how true/false/nil print (formatting no statement pins down).
@@ -162,11 +167,77 @@ func sameOutcome(a, b Result) string {
 	return ""
 }
 
+// otherEntryPoints renders the case as the only file of a template directory:
+// through NewTemplate + String (twice) and through EvaluateFile. What a
+// template renders to does not depend on the way it reaches the evaluator.
+func otherEntryPoints(c *harness.Check, cs renderCase, payload string) (Result, string) {
+	root, err := tree.Materialise(tree.Tree{"t/page.tw": {Content: cs.Src}})
+	if err != nil {
+		return Result{}, ""
+	}
+	var viaTpl, viaTpl2, viaFile Result
+	pi := c.Guard("json", payload, func() {
+		textwire.VerifReset()
+		res := func(out string, err error) Result {
+			r := Result{Out: out}
+			if err != nil {
+				r.Err = err.Error()
+				if r.Err == "" {
+					r.Err = "(empty error text)"
+				}
+			}
+			return r
+		}
+		tpl, lerr := textwire.NewTemplate(&config.Config{TemplateDir: "t", TemplateExt: ".tw"})
+		if lerr != nil {
+			viaTpl, viaTpl2 = res("", lerr), res("", lerr)
+		} else {
+			out, ferr := tpl.String("page", cs.Data.GoMap())
+			if ferr != nil {
+				viaTpl = res(out, ferr.Error())
+			} else {
+				viaTpl = res(out, nil)
+			}
+			out, ferr = tpl.String("page", cs.Data.GoMap())
+			if ferr != nil {
+				viaTpl2 = res(out, ferr.Error())
+			} else {
+				viaTpl2 = res(out, nil)
+			}
+		}
+		viaFile = res(textwire.EvaluateFile(filepath.Join(root, "t", "page.tw"), cs.Data.GoMap()))
+	})
+	if pi != nil {
+		return Result{Panic: pi}, "as a file of a template directory: panic: " + pi.Value
+	}
+	for _, v := range []struct {
+		name string
+		r    Result
+	}{{"NewTemplate + String", viaTpl}, {"a second String on the same Template", viaTpl2}, {"EvaluateFile", viaFile}} {
+		if f := cs.Want.matches(v.r); f != "" {
+			return v.r, "through " + v.name + " (the source as file t/page.tw): " + f
+		}
+	}
+	return viaTpl, ""
+}
+
+var directiveOfTrees = regexp.MustCompile(`@(use|insert|reserve|component|slot)\b`)
+
 func runRenderCase(c *harness.Check, cs renderCase) (Result, string) {
 	payload := mustJSON(cs)
 	r := evalString(c, "json", payload, cs.Src, cs.Data.GoMap())
 	if f := cs.Want.matches(r); f != "" {
 		return r, f
+	}
+	// one case in eight (by its content) also goes through the other entry points
+	if h := fnv.New32a(); true {
+		h.Write([]byte(payload))
+		if h.Sum32()%8 == 0 && !directiveOfTrees.MatchString(cs.Src) {
+			c.Class("also-through:NewTemplate+String,EvaluateFile")
+			if r2, f := otherEntryPoints(c, cs, payload); f != "" {
+				return r2, f
+			}
+		}
 	}
 	if cs.Src2 != "" {
 		r2 := evalString(c, "json", payload, cs.Src2, cs.Data.GoMap())
